@@ -534,6 +534,26 @@ def flatnonzero_facts(mask):
     return pos, m
 
 
+def count_before(mask):
+    """K(i) = number of true elements of mask before position i (exclusive prefix sum of the 0/1 mask), together with engine lemma L9
+    (pyvc/lemmas.py): K brackets the positions of np.flatnonzero(mask):  pos(K(i)-1) < i <= pos(K(i)), 0 <= K(i) <= count, K(n) = count."""
+    c = ctx()
+    pos, m = flatnonzero_facts(mask)
+    fm = mask.snapshot()
+    n = mask.length
+    f01 = c.ghost.setdefault("mask01", {}).setdefault(id(fm), (lambda k, fm=fm: Ite(B(fm(k)), 1, 0)))
+    K = exclusive_prefix(f01, n)
+    done = c.ghost.setdefault("L9_done", set())
+    if K.get_id() not in done:
+        done.add(K.get_id())
+        use("engine lemma: the count of true positions before i brackets flatnonzero's positions (pyvc/lemmas.py L9)")
+        body = lambda i: Implies(And(I(i) >= 0, I(i) <= I(n)),
+                                 And(K(i) >= 0, K(i) <= I(m), Implies(K(i) > 0, I(pos(K(i) - 1)) < I(i)), Implies(K(i) < I(m), I(pos(K(i))) >= I(i))))
+        c.assume(Forall(body, triggers=[K], name="L9 count brackets positions"))
+        c.assume(K(I(n)) == I(m))
+    return K, pos, m
+
+
 def flatnonzero(mask, lineno=None):
     use("boolean compress / flatnonzero")
     if mask.kind != "bool":
